@@ -93,3 +93,23 @@ V("C45-put-chunk-before-maintenance","C45",OS,"""		if s.fsChain.LocalNodeUnderMa
 			return s.sendStatusPutResponse(gStream, apistatus.ErrNodeUnderMaintenance, reqFirst)
 		}
 """,rule="C45.R1")
+
+V("C31-client-check-dropped","C31",OS,"""	} else if !clientInCnr {
+		return &protoobject.ReplicateResponse{Status: &protostatus.Status{
+			Code: codeAccessDenied, Message: "client does not match the object's storage policy",
+		}}, nil
+	}""","""	} else if !clientInCnr && !serverInCnr {
+		return &protoobject.ReplicateResponse{Status: &protostatus.Status{
+			Code: codeAccessDenied, Message: "client does not match the object's storage policy",
+		}}, nil
+	}""",rule="C31.R1")
+V("C31-client-flag-from-own-key","C31",OS,"clientInCnr = bytes.Equal(pubKey, req.Signature.Key)","clientInCnr = bytes.Equal(pubKey, req.Signature.Key) || s.fsChain.IsOwnPublicKey(req.Signature.Key)",rule="C31.R3")
+V("C31-verify-other-bytes","C31",OS,"if !pubKey.Verify(req.Object.ObjectId.Value, req.Signature.Sign) {","if !pubKey.Verify(req.Object.ObjectId.Value, req.Signature.Sign) && len(req.Signature.Sign) != 64 {",rule="C31.R1")
+V("C33-exempt-without-ttl","C33","internal/crypto/requests.go","if meta == nil || meta.GetTtl() != 1 {","if meta == nil {",rule="C33.R1")
+V("C33-n3-ignores-result","C33","internal/crypto/requests.go","""	err := neofscrypto.VerifyRequestWithBufferN3(req, nil, verifyN3)
+	if err != nil {""","""	err := neofscrypto.VerifyRequestWithBufferN3(req, nil, verifyN3)
+	if err != nil && verifyN3 == nil {""",rule="C33.R2")
+V("C33-container-list-unverified","C33","pkg/services/container/server.go","""func (s *Server) List(_ context.Context, req *protocontainer.ListRequest) (*protocontainer.ListResponse, error) {
+	if err := icrypto.VerifyRequestSignatures(req); err != nil {""","""func (s *Server) List(_ context.Context, req *protocontainer.ListRequest) (*protocontainer.ListResponse, error) {
+	if err := icrypto.VerifyRequestSignatures(req); err != nil && req.GetBody().GetOwnerId() == nil {""",rule="C33.R3")
+V("C33-setattr-verifies-other-sig","C33","pkg/services/container/server.go","if err := neofscrypto.VerifyMessageSignature(req.Body, req.BodySignature, nil); err != nil {\n\t\tvar e apistatus.SignatureVerification\n\t\te.SetMessage(\"invalid request signature: \" + err.Error())\n\t\treturn s.makeSetAttributeResponse(e)","if err := neofscrypto.VerifyMessageSignature(req.Body.Parameters, req.BodySignature, nil); err != nil {\n\t\tvar e apistatus.SignatureVerification\n\t\te.SetMessage(\"invalid request signature: \" + err.Error())\n\t\treturn s.makeSetAttributeResponse(e)",rule="C33.R3")
